@@ -813,6 +813,8 @@ def run_ctor_checks(ctx):
         u0, u1 = rng.choice(units_of('Current')), rng.choice(units_of('Current'))
         imax_si = rng.uniform(0.5, 5)
         for f in (0.0, 0.3, 0.999, 1.0, 1.001, 2.0, -0.1):
+            if f == 1.0 and u0 != u1:
+                continue      # equal magnitudes in different units: the test i0 >= imax sits on its threshold
             i0_si = imax_si * f
             cases.append({'t': 'ctor', 'what': 'currents', 'x': [float(F(i0_si) / SI['Current'][u0]), float(F(imax_si) / SI['Current'][u1])],
                           'u': [u0, u1], 'ok': 0 <= f < 1})
